@@ -35,6 +35,11 @@ func vCases() []vCase {
 		{rlwe.ParametersLiteral{LogN: 4, Q: []uint64{12289}, NTTFlag: true}, rlwe.ParametersLiteral{LogN: 4, Q: []uint64{0x7fff801}, NTTFlag: true}, 0, -1, 7, "32bit-path"},
 		{rlwe.ParametersLiteral{LogN: 4, Q: []uint64{12289}, NTTFlag: true}, rlwe.ParametersLiteral{LogN: 4, Q: []uint64{0x7fff801}, NTTFlag: true}, 0, -1, 2, "32bit-path-narrow-digits"},
 		{rlwe.ParametersLiteral{LogN: 4, Q: []uint64{0x1fffffc1}, NTTFlag: true}, rlwe.ParametersLiteral{LogN: 4, Q: []uint64{0x1fffffc1}, NTTFlag: true}, 0, -1, 2, "32bit-path-29bit-prime-narrow-digits"},
+		// a single small Q with one auxiliary prime: NOT the 32-bit path (it ignores P)
+		{rlwe.ParametersLiteral{LogN: 4, Q: []uint64{12289}, P: []uint64{257}, NTTFlag: true}, rlwe.ParametersLiteral{LogN: 4, Q: []uint64{0x7fff801}, LogP: []int{30}, NTTFlag: true}, 0, 0, 7, "smallQ-oneP-bitdecomp"},
+		{rlwe.ParametersLiteral{LogN: 4, Q: []uint64{12289}, P: []uint64{257}, NTTFlag: true}, rlwe.ParametersLiteral{LogN: 4, Q: []uint64{0x7fff801}, LogP: []int{30}, NTTFlag: true}, 0, 0, 0, "smallQ-oneP"},
+		// (a single small Q without P and without power-of-two digits is not a usable parameterisation: one digit of the
+		// size of q makes the key-switch noise as large as q, whichever path computes it - not included)
 	}
 }
 
@@ -91,6 +96,7 @@ func vAssertNoiseFree(r *ring.Ring, a, b ring.Poly, isNTT bool, logBound int, id
 
 func VerifH_C20_ExternalProduct() {
 	vExternalProducts(0, 5)
+	vExternalProducts(6, 8)
 	vCover("C20-reached")
 }
 
@@ -149,3 +155,103 @@ func vExternalProducts(from, to int) {
 		vAssertNoiseFree(rQ, got.Value, want, true, 22, tag+"-in-place-external-product-decrypts-to-m-times-g")
 	}
 }
+
+// RGSW ciphertexts add (ciphertext + ciphertext, ciphertext + plaintext) and multiply by X^a - 1 as their
+// plaintexts do: the result, used in an external product, decrypts to m·(g1+g2), m·(g1+g3), m·g1·(X^a-1).
+func vCopyRGSW(params rlwe.Parameters, cs vCase, src *Ciphertext) *Ciphertext {
+	dst := NewCiphertext(params, cs.levelQ, cs.levelP, cs.w)
+	dst.Value[0] = *src.Value[0].CopyNew()
+	dst.Value[1] = *src.Value[1].CopyNew()
+	return dst
+}
+
+func VerifH_C20_RGSWAlgebra() {
+	vConfig("algebraic-samplers", "1")
+	for i, cs := range vCases() {
+		if i > 2 {
+			continue
+		}
+		c := VerifSetup_Ctx(i, vIsAlgebraic())
+		c.Kgen.GenSecretKey(c.Sk)
+		params := c.Params
+		tag := "algebra-" + cs.name
+		rQ := params.RingQ().AtLevel(cs.levelQ)
+		ringQP := params.RingQP().AtLevel(cs.levelQ, cs.levelP)
+		newG := func(name string) (*rlwe.Plaintext, ring.Poly) {
+			g := rlwe.NewPlaintext(params, cs.levelQ)
+			g.IsNTT = true
+			coef := rQ.NewPoly()
+			if vIsAlgebraic() {
+				vFillAtoms(rQ, coef, name, vMessage)
+			} else {
+				for k := range coef.Coeffs {
+					coef.Coeffs[k][1] = 1
+					coef.Coeffs[k][3] = 2
+				}
+			}
+			rQ.NTT(coef, g.Value)
+			return g, coef
+		}
+		g1, _ := newG("g1")
+		g2, _ := newG("g2")
+		g3, g3coef := newG("g3")
+		gsw1 := NewCiphertext(params, cs.levelQ, cs.levelP, cs.w)
+		gsw2 := NewCiphertext(params, cs.levelQ, cs.levelP, cs.w)
+		vAssert(c.Enc.Encrypt(g1, gsw1) == nil && c.Enc.Encrypt(g2, gsw2) == nil, tag+"-RGSW-encrypt-no-error")
+		ct := rlwe.NewCiphertext(params, 1, cs.levelQ)
+		ct.IsNTT = true
+		for j := range ct.Value {
+			vFillAtoms(rQ, ct.Value[j], "c"+string(rune('0'+j)), vUniform)
+		}
+		m := rlwe.NewPlaintext(params, cs.levelQ)
+		c.Dec.Decrypt(ct, m)
+		check := func(gsw *Ciphertext, gsum ring.Poly, id string) {
+			want := rQ.NewPoly()
+			rQ.MulCoeffsBarrett(m.Value, gsum, want)
+			out := rlwe.NewCiphertext(params, 1, cs.levelQ)
+			out.IsNTT = true
+			c.Eval.ExternalProduct(ct, gsw, out)
+			got := rlwe.NewPlaintext(params, cs.levelQ)
+			c.Dec.Decrypt(out, got)
+			vAssertNoiseFree(rQ, got.Value, want, true, 24, id)
+		}
+		// ciphertext + ciphertext
+		sum := vCopyRGSW(params, cs, gsw1)
+		AddLazy(gsw2, ringQP, sum)
+		Reduce(sum, ringQP, sum)
+		gs := rQ.NewPoly()
+		rQ.Add(g1.Value, g2.Value, gs)
+		check(sum, gs, tag+"-sum-of-RGSW-ciphertexts-encrypts-the-sum")
+		// ciphertext + plaintext
+		pt3, err := NewPlaintext(params, g3coef, cs.levelQ, cs.levelP, cs.w)
+		vAssert(err == nil, tag+"-RGSW-plaintext-created")
+		sum2 := vCopyRGSW(params, cs, gsw1)
+		AddLazy(pt3, ringQP, sum2)
+		Reduce(sum2, ringQP, sum2)
+		rQ.Add(g1.Value, g3.Value, gs)
+		check(sum2, gs, tag+"-RGSW-ciphertext-plus-plaintext-encrypts-the-sum")
+		// multiplication by X^a - 1 (a = 3)
+		xm := ringQP.NewPoly()
+		for k, s := range ringQP.RingQ.SubRings[:cs.levelQ+1] {
+			xm.Q.Coeffs[k][0] = s.Modulus - 1
+			xm.Q.Coeffs[k][3] = 1
+		}
+		if cs.levelP >= 0 {
+			for k, s := range ringQP.RingP.SubRings[:cs.levelP+1] {
+				xm.P.Coeffs[k][0] = s.Modulus - 1
+				xm.P.Coeffs[k][3] = 1
+			}
+		}
+		ringQP.NTT(xm, xm)
+		ringQP.MForm(xm, xm)
+		prod := NewCiphertext(params, cs.levelQ, cs.levelP, cs.w)
+		MulByXPowAlphaMinusOneLazy(gsw1, xm, ringQP, prod)
+		Reduce(prod, ringQP, prod)
+		xq := rQ.NewPoly()
+		rQ.IMForm(xm.Q, xq)
+		rQ.MulCoeffsBarrett(g1.Value, xq, gs)
+		check(prod, gs, tag+"-RGSW-times-X^a-minus-one-encrypts-the-product")
+	}
+	vCover("C20-algebra-reached")
+}
+
